@@ -239,7 +239,8 @@ class CliTask(CoreTask):
         for explicit, has_inst, has_base in ((True, True, False), (False, True, False), (True, True, True)):
             repo, ctx, st, vm, validator, I = self.setup()
             from contracts.tasks_entry import ValidatorForC
-            ctx.contracts[ValidatorForC.key] = ValidatorForC(d)
+            # with --validator given, whatever validator_for would select is a different class: it must not be used
+            ctx.contracts[ValidatorForC.key] = ValidatorForC(4 if explicit else d)
             schema_path, n_inst = cli_hooks(ctx, vm, AbsArgs(explicit, has_inst, has_base), d)
             unit = repo.unit("cli:run")
             res["function"], res["source_hash"] = unit.key, unit.source_hash()
@@ -293,6 +294,9 @@ class CliTask(CoreTask):
                 if "construct" not in ev:
                     obls.append(core.Obligation("%s/F/%s.early-exit#%d" % (self.name, tag, n_total), "F", s.pc, z3.And(z3.Not(schema_ok), z3.Not(zero)),
                                                 note="a return before the validator is constructed happens only for a missing/unparsable/invalid schema, with a non-zero status"))
+                if "construct" in ev:
+                    obls.append(core.Obligation("%s/F/%s.class#%d" % (self.name, tag, n_total), "F", s.pc, z3.BoolVal(s.ghost.get("constructed_d") == d),
+                                                note="instances are validated with the class given by --validator, or else the one selected from $schema"))
                 if has_base:
                     obls.append(core.Obligation("%s/F/%s.base-uri#%d" % (self.name, tag, n_total), "F", s.pc,
                                                 z3.BoolVal("construct" not in ev or "resolver-with-base-uri" in ev),
